@@ -15,7 +15,9 @@ from harness.common import Ctx, Inconclusive, drive, guard, watchdog
 RULE = ("(1) every built-in sampler: history arrays (ties, losses >= float32 max, +-1e300, inf where the sampler's third-party "
         "back-end accepts them) must be byte-identical after sample(); (2) surrogates: a stub MLSurrogateSampler with "
         "Hypothesis-generated predictions (ties) and the three built-in surrogates with fit/predict wrapped: fit sees exactly "
-        "the history, every returned row is a pool row and their predictions are the batch_size smallest; (3) best-batch: "
+        "the history - also what reaches the third-party estimator itself (its fit is observed), also for histories of 500-560 rows, "
+        "beyond the Gaussian process's warning threshold - every returned row is a pool row and their predictions are the "
+        "batch_size smallest; (3) best-batch (histories may hold -inf / +-float max losses and points outside the space): "
         "every returned row derives from one of the batch_size lowest-loss points by 1..range-1 steps on >= 1 coordinate, "
         "clipped. Non-trivial = ties at the selection boundary, or a loss >= float32 max, or a parent on a bound.")
 ASSUMPTIONS = ["surrogate checks run with max_deduplication_passes=0 (a redraw would merge two pools)",
